@@ -68,6 +68,10 @@ func run(e *core.Env) {
 		runHandshakeKeys(e)
 		return
 	}
+	if tp.Chance(1, 8) {
+		runThreeRouters(e)
+		return
+	}
 	e.StartClock()
 	nNodes := 2
 	if tp.Chance(1, 4) {
